@@ -4,6 +4,7 @@ import SJ.Proofs.SerImage
 import SJ.Proofs.SerHints
 import SJ.Proofs.SerValue
 import SJ.Proofs.Recognise
+import SJ.Proofs.SerUtf8
 /-!
 # C03 — serialiser output is well-formed JSON that denotes the data
 
@@ -223,18 +224,56 @@ theorem c03_display_partial (ext : Ext) (v : JV) :
 example : (displayAlt ext0 (.arr [.arr []])).map List.flatten
     = .ok [0x5b, 0x0a, 0x20, 0x20, 0x5b, 0x5d, 0x0a, 0x5d] := rfl
 
-/-- **C03 (UTF-8) — partial.** Every buffer written for a string (`serialize_str`, `char`, unit variant
+/-- **C03 (UTF-8), per string.** Every buffer written for a string (`serialize_str`, `char`, unit variant
     names, field and variant names, `collect_str`, string keys) is either pure ASCII or a contiguous
-    fragment of the input string whose neighbours in it are ASCII bytes; hence each buffer — and the
-    concatenation — is valid UTF-8 whenever the input string is. Missing: the lift to whole programs
-    (all other buffers are the ASCII literals of `SJ.Gen.Ser`, the indent string and `itoa`/`ryu` text)
-    and the conclusion in terms of a `ValidUtf8` specification (not available on this branch). -/
-theorem c03_utf8_partial (s : Bytes) :
+    fragment of the input string whose neighbours in it are ASCII bytes — no buffer boundary falls
+    inside a multi-byte sequence. (`c03_utf8` lifts this to whole programs.) -/
+theorem c03_utf8_fragments (s : Bytes) :
     ∀ b ∈ EscapeLocal.escapeStr s, SerEscape.Ascii b ∨ SerEscape.FragOf s b :=
   SerEscape.escapeStr_bufs s
 
 /-- `é"é`: the fragments `é` are cut only at the escaped quote -/
 example : EscapeLocal.escapeStr [0xc3, 0xa9, 0x22, 0xc3, 0xa9] = [[0x22], [0xc3, 0xa9], [0x5c, 0x22], [0xc3, 0xa9], [0x22]] := rfl
+
+/-- **C03 / C13 (UTF-8).** For every program whose strings are UTF-8 — `SVal.utf8OK`: every `&str`
+    payload (`serialize_str`, `collect_str`, variant and field names, string keys, the literal of
+    `Number` under `arbitrary_precision`) is valid UTF-8 and every `char` is a scalar value, which is
+    what Rust's types guarantee — and for both formatters (the pretty one with a valid UTF-8 indent
+    string): **every buffer handed to the writer is valid UTF-8 on its own**, and so is the whole
+    output. No hypothesis on hints. The other buffers are the formatter literals extracted from
+    `src/ser.rs` (ASCII, by evaluation), the indent string, and `itoa` / `ryu` text (RFC 8259 numbers by
+    `ExtOK`, hence ASCII). -/
+theorem c03_utf8 (ext : Ext) (hext : ExtOK ext) (p : SVal) (hu : p.utf8OK = true) (bufs : List Bytes) :
+    (serCompact ext p = .ok bufs →
+      (∀ b ∈ bufs, Spec.Utf8.validUtf8 b = true) ∧ Spec.Utf8.validUtf8 bufs.flatten = true) ∧
+    (∀ indent, Spec.Utf8.validUtf8 indent = true → serPretty ext indent p = .ok bufs →
+      (∀ b ∈ bufs, Spec.Utf8.validUtf8 b = true) ∧ Spec.Utf8.validUtf8 bufs.flatten = true) := by
+  constructor
+  · intro h
+    obtain ⟨r, hr, rfl⟩ := serCompact_ok h
+    have := SerUtf8.ser_utf8 ext hext .compact trivial p _ r hu hr
+    exact ⟨this, SerUtf8.allV_flatten this⟩
+  · intro indent hi h
+    obtain ⟨r, hr, rfl⟩ := serPretty_ok h
+    have := SerUtf8.ser_utf8 ext hext (.pretty indent) hi p _ r hu hr
+    exact ⟨this, SerUtf8.allV_flatten this⟩
+
+/-- `progA` (`{"a":{"V":{}},"5":[],"é":[1,2]}`) is `utf8OK`; indented with U+00A0 (not JSON whitespace,
+    but UTF-8) every buffer is valid -/
+example : progA.utf8OK = true ∧
+    ∃ bufs, serPretty ext0 [0xc2, 0xa0] progA = .ok bufs ∧ [0xc2, 0xa0] ∈ bufs ∧ [0xc3, 0xa9] ∈ bufs ∧
+      (∀ b ∈ bufs, Spec.Utf8.validUtf8 b = true) ∧ Spec.Utf8.validUtf8 bufs.flatten = true := by
+  refine ⟨rfl, _, rfl, by decide, by decide, ?_⟩
+  exact (c03_utf8 ext0 ext0_ok progA rfl _).2 [0xc2, 0xa0] (by decide) rfl
+
+/-- both hypotheses are needed: a `str` that is not UTF-8 is written as it is, and so is the indent -/
+example : serCompact ext0 (.str [0xff]) = .ok [[0x22], [0xff], [0x22]] ∧
+    serPretty ext0 [0xff] (.seq none [.unit]) = .ok [[0x5b], [0x0a], [0xff], [0x6e, 0x75, 0x6c, 0x6c], [0x0a], [0x5d]] ∧
+    Spec.Utf8.validUtf8 [0xff] = false := ⟨rfl, rfl, by decide⟩
+
+/-- a `char` that is a surrogate (impossible in Rust) would be written as the three bytes `ED A0 80` -/
+example : (SVal.char 0xD800).utf8OK = false ∧ serCompact ext0 (.char 0xD800) = .ok [[0x22], [0xed, 0xa0, 0x80], [0x22]] ∧
+    Spec.Utf8.validUtf8 [0xed, 0xa0, 0x80] = false := ⟨rfl, rfl, by decide⟩
 
 /-- **C03 (the checker of the implementation's bytes is sound).** Whatever the independent recogniser
     used by the correspondence run accepts is an RFC 8259 JSON text with the returned syntax tree; in its
